@@ -249,4 +249,69 @@ def memOf : Except Fault (Sys D) → Except Fault D
   | .ok s => .ok s.mem
   | .error e => .error e
 
+/-! ### Batches of operations issued concurrently (event-loop atomicity)
+
+The hub is one asyncio program; several coroutines use the one driver. As long as a modifying operation contains no
+suspension point between its first mutation of `self._data` and the end of its `_save`, the event loop runs the
+operations of a batch one whole operation at a time, in some order: the concurrent execution IS a serial history
+`σ.map Ev.op`. That is the atomicity assumption under which the crash theorems speak about the real hub; the harness
+checks it on the real driver (concurrent batches on a large collection, crash points across the whole execution). -/
+
+/-- the content after running whole operations one after the other -/
+def applyAll (σ : List (D → D)) (m : D) : D := σ.foldl (fun a f => f a) m
+
+/-- `x` is a whole-operation state of the batch `ops` started on content `m`: some of the operations, each of them
+completely, in some order. -/
+def WholeOpState (ops : List (D → D)) (m x : D) : Prop :=
+  ∃ τ rest, (τ ++ rest).Perm ops ∧ x = applyAll τ m
+
+theorem specRun_ops (σ : List (D → D)) : ∀ m m' : D, SpecRun m (σ.map Ev.op) m' → m' = applyAll σ m := by
+  induction σ with
+  | nil => intro m m' h; cases h; rfl
+  | cons f σ ih =>
+    intro m m' h
+    cases h with
+    | cons h1 h2 =>
+      have := specStep_op h1
+      subst this
+      exact ih _ _ h2
+
+theorem applyAll_append (σ : List (D → D)) (g : D → D) (m : D) : applyAll (σ ++ [g]) m = g (applyAll σ m) := by
+  simp [applyAll, List.foldl_append]
+
+theorem ops_then_crash {c : Codec D} (hc : c.Lawful) (ub : Bool) (h : List (Ev D)) (σ : List (D → D)) (g : D → D)
+    (k j : Nat) :
+    ∃ s s', life c ⟨true, ub⟩ h = .ok s ∧
+      life c ⟨true, ub⟩ (h ++ (σ.map Ev.op ++ [.crashOp g k j])) = .ok s' ∧
+      (s'.mem = applyAll σ s.mem ∨ s'.mem = applyAll (σ ++ [g]) s.mem) := by
+  obtain ⟨s, h1, _, h3⟩ := life_ok hc ub h
+  obtain ⟨s1, g1, g2, g3⟩ := run_ok hc ub (σ.map Ev.op) s h3
+  obtain ⟨s2, k1, k2, _⟩ := step_ok hc ub s1 (.crashOp g k j) g3
+  have e1 := specRun_ops σ _ _ g2
+  refine ⟨s, s2, h1, ?_, ?_⟩
+  · simp [life_append, h1, run_append, g1, Sys.run, k1]
+  · rw [applyAll_append, ← e1]
+    exact specStep_crash k2
+
+/-- the two halves of a non-atomic operation (`f2 ∘ f1`, suspended in between) and a concurrent operation `g` -/
+def Witness.f1 (d : Doc) : Doc := ⟨d.id + 1, d.extra⟩
+def Witness.f2 (d : Doc) : Doc := ⟨d.id + 10, d.extra⟩
+def Witness.g (d : Doc) : Doc := ⟨d.id + 100, d.extra⟩
+
+theorem half_applied_not_whole :
+    ¬ WholeOpState [Witness.f2 ∘ Witness.f1, Witness.g] (⟨0, 0⟩ : Doc) ⟨101, 0⟩ := by
+  rintro ⟨τ, rest, hp, hx⟩
+  have hl := hp.length_eq
+  have hm : ∀ a ∈ τ, a = Witness.f2 ∘ Witness.f1 ∨ a = Witness.g := fun a ha => by
+    have : a ∈ τ ++ rest := List.mem_append_left _ ha
+    simpa using (hp.mem_iff.mp this)
+  match τ, hm, hl, hx with
+  | [], _, _, hx => simp [applyAll] at hx
+  | [a], hm, _, hx =>
+    rcases hm a (by simp) with e | e <;> subst e <;> simp [applyAll, Witness.f1, Witness.f2, Witness.g] at hx
+  | [a, b], hm, _, hx =>
+    rcases hm a (by simp) with e | e <;> rcases hm b (by simp) with e' | e' <;> subst e <;> subst e' <;>
+      simp [applyAll, Witness.f1, Witness.f2, Witness.g] at hx
+  | _ :: _ :: _ :: _, _, hl, _ => simp at hl
+
 end QtVerif.JsonFile
